@@ -375,6 +375,39 @@ def r12_reference_reset_and_solid_test(idx, r):
               msg=f"a component of {names} is not 'solid' for axial linking while iterSolidComponents still expands everything but fluids: it grows but is not linked, and components stop being contiguous")
 
 
+def r13_every_factor_every_step_snap_after_all(idx, r):
+    """(a) ExpansionData._setComponentThermalExpansionFactors computes a factor for EVERY solid component of the block: a component that is
+    skipped keeps the factor of an earlier step in the table, and the earlier growth is applied again.  (b) expandColdDimsToHot snaps the
+    assemblies to the reference mesh only after ALL of them were expanded - inside the expansion loop an assembly listed before the reference
+    one would be snapped to the still-cold reference mesh, and the result would depend on the order of the list.  (c) makeAxialSnapList finds
+    the reference mesh point that IS the block top (`np.isclose`): the first point at or above it is the next one whenever the running sum of
+    heights is a last bit smaller."""
+    f = idx.method(ED, "_setComponentThermalExpansionFactors")
+    calls = [c for c in iter_calls(f.node) if call_attr(c) == "_perComponentThermalExpansionFactors"]
+    if len(calls) != 1:
+        raise AnchorMissing("_setComponentThermalExpansionFactors: per-component call")
+    conds = [norm(t) for t, _p in path_conditions(f.node, calls[0])]
+    r.require(not conds, "thermal-factors:computed-for-every-solid-component", f, node=calls[0],
+              msg=f"a component's factor is only recomputed under {conds}: a skipped component keeps the factor stored by an earlier step")
+    g = idx.method(AXM + ".axialExpansionChanger.AxialExpansionChanger", "expandColdDimsToHot")
+    loops = [x for x in walk_local(g.node) if isinstance(x, ast.For) and any(call_attr(c) == "axiallyExpandAssembly" for c in iter_calls(x))]
+    snaps = [c for c in iter_calls(g.node) if call_attr(c) == "setBlockMesh"]
+    if not loops or not snaps:
+        raise AnchorMissing("expandColdDimsToHot: expansion loop and setBlockMesh")
+    inside = [c for c in snaps if any(any(y is c for y in ast.walk(lp)) for lp in loops)]
+    r.require(not inside, "expandColdDimsToHot:snap-after-all-assemblies-expanded", g, node=inside[0] if inside else None,
+              msg="setBlockMesh(reference mesh) runs inside the loop that expands the assemblies: an assembly that comes before the reference assembly is snapped to the reference's cold mesh")
+    h = idx.method("armi.reactor.assemblies.Assembly", "makeAxialSnapList")
+    st = [s_ for s_ in iter_stores(h.node) if s_.chain and s_.chain.endswith(".p.topIndex") and s_.value is not None]
+    if not st:
+        raise AnchorMissing("makeAxialSnapList: b.p.topIndex = ...")
+    for s_ in st:
+        v = s_.value
+        r.require(any(isinstance(c, ast.Call) and dotted(c.func) in ("np.isclose", "numpy.isclose", "math.isclose") for c in ast.walk(v)) and not any(isinstance(y, ast.Compare) and isinstance(y.ops[0], (ast.Lt, ast.Gt, ast.LtE, ast.GtE)) for y in ast.walk(v)),
+                  "makeAxialSnapList:top-index-by-tolerant-equality", h, node=s_.stmt,
+                  msg=f"`{norm(s_.stmt)[:80]}` picks a mesh point by an ordering comparison: a top that is one rounding error below its mesh point gets the NEXT index and every boundary above shifts")
+
+
 def run(idx, chk):
     chk.explanation = (
         "C12: axiallyExpandAssembly typed with a role generator for the growth fraction (height x growth, densities x growth^-1); block bottoms on the "
@@ -404,3 +437,5 @@ def run(idx, chk):
                  necessary="each block grows by its target component's factor of THIS call, computed from the reference temperature the caller chose")
     chk.run_rule("R12.12", "every component of a temperature field is updated from a fresh reference table; axial linking and expansion agree on what is solid", lambda r: r12_reference_reset_and_solid_test(idx, r), floor=3,
                  necessary="each block grows by its target's factor of this step only; solid components of neighbouring blocks stay contiguous")
+    chk.run_rule("R12.13", "a thermal factor for every solid component; snapping after all assemblies are expanded; the snap index by tolerant equality", lambda r: r13_every_factor_every_step_snap_after_all(idx, r), floor=3,
+                 necessary="each block grows by its target's factor of this step; the result does not depend on the order of the assemblies")
